@@ -167,7 +167,7 @@ int main(void) {
         n_thr = (int)nextl(); if (n_thr < 1) n_thr = 1; if (n_thr > MAXT) n_thr = MAXT;
         n_chunk = (int)nextl(); for (int i = 0; i < n_chunk; i++) chunk_script[i] = nextl();
         n_pre = (int)nextl(); for (int i = 0; i < n_pre; i++) { pre_run[i] = nextl(); pre_next[i] = (int)nextl(); }
-        idx_t lens[16]; seq_t *ptrs[16];
+        idx_t lens[64]; seq_t *ptrs[64]; if (n > 64) { fprintf(stderr, "harness: n > 64\n"); return 3; }
         for (int i = 0; i < n; i++) lens[i] = nextl();
         for (int i = 0; i < n; i++) {
             ptrs[i] = (seq_t *)malloc(lens[i] * ndim * sizeof(seq_t));
